@@ -337,6 +337,17 @@ def mr_entries(case):
 
 class C15(Family):
     prop = "C15"
+    # source-text tie (notes/NOTES-py2lean-canon.md): Generated/Canon*.lean are rewritten from the text of
+    # control/canonical.py and control/modelsimp.py of the tree under check on every run and proved equal to
+    # the run-time model (DSS.similarity / reachableForm / observableForm / modelReduction)
+    extra_modules = ["CtrlVerif.Props.C15GenSim", "CtrlVerif.Props.C15GenReach", "CtrlVerif.Props.C15GenObs",
+                     "CtrlVerif.Props.C15GenForm", "CtrlVerif.Props.C15GenKeys", "CtrlVerif.Props.C15GenReduce"]
+
+    def pre_build(self):
+        import os
+        from core import py2lean_canon, leanproj
+        problems, self.gen_info = py2lean_canon.regenerate(os.environ.get("VERIF_REPO") or "/repo", leanproj.LEAN)
+        return problems
     externals = [
         "numpy.linalg.solve (the model uses a certified exact inverse: Gauss-Jordan candidate checked "
         "by F*X = 1, else det/adjugate)",
